@@ -678,10 +678,17 @@ impl KnownFindings {
 }
 
 fn sanitize(s: &str) -> String {
-    s.chars()
+    // readable prefix + a hash of the whole signature (prefixes can collide)
+    let mut h: u64 = 0xcbf29ce484222325;
+    for b in s.bytes() {
+        h = (h ^ b as u64).wrapping_mul(0x100000001b3);
+    }
+    let head: String = s
+        .chars()
         .map(|c| if c.is_ascii_alphanumeric() || c == '-' || c == '_' { c } else { '_' })
-        .take(80)
-        .collect()
+        .take(72)
+        .collect();
+    format!("{head}-{:08x}", h as u32)
 }
 
 /// Runs a check; returns the process exit code
@@ -740,14 +747,8 @@ pub fn check_main(check: &dyn Check, tier: Tier) -> i32 {
     let mut lines: Vec<String> = vec![];
     let mut nondeterministic: Vec<String> = vec![];
     for v in agg.violations.values() {
-        if let Some(what) = known.lookup(id, &v.sig) {
-            known_hits += 1;
-            lines.push(format!(
-                "KNOWN-FINDING: property={id} {} [{}] ({} cases)",
-                what, v.sig, v.count
-            ));
-            continue;
-        }
+        // a replay file is written for known findings too, so that they can be
+        // reproduced: ./check replay <file>
         std::fs::create_dir_all(&replay_dir).ok();
         let path = replay_dir.join(format!("{}.json", sanitize(&v.sig)));
         let body = json!({
@@ -756,6 +757,14 @@ pub fn check_main(check: &dyn Check, tier: Tier) -> i32 {
             "replay": format!("./check replay {}", path.display()),
         });
         std::fs::write(&path, serde_json::to_string_pretty(&body).unwrap()).ok();
+        if let Some(what) = known.lookup(id, &v.sig) {
+            known_hits += 1;
+            lines.push(format!(
+                "KNOWN-FINDING: property={id} {} [{}] ({} cases)",
+                what, v.sig, v.count
+            ));
+            continue;
+        }
         // determinism check: the same case must fail again in a fresh process
         if new_violations < 3 && !v.sig.starts_with("process-crash") {
             let st = std::process::Command::new(std::env::current_exe().unwrap())
